@@ -836,5 +836,6 @@ pub fn template_graph(sel: u8, raw: &RawGraph) -> Option<Graph> {
         root_named: raw.root_named,
         nproj: 1,
         targets,
+        homonyms: false,
     })
 }
